@@ -38,7 +38,7 @@ SAFETY = "SameIdentity IdentityStable"
 # round that is due; the same with a KILL refused while other leftovers keep the core talking; the same with an environment
 # deployed by the new life between the lost KILL and the reconnection; a deployment completed while a teardown was held
 # at its KILL calls, then a reconnection
-PROBES = ["ProbeLostKill", "ProbeRefusedKill", "ProbeLostKillDeployed", "ProbeOverlap"]
+PROBES = ["ProbeLostKill", "ProbeRefusedKill", "ProbeLostKillDeployed", "ProbeDeployDuringAnswer", "ProbeOverlap"]
 WORKERS = max(4, vlib.NCPU // 2)
 
 
@@ -145,7 +145,7 @@ class Conv:
             self.emit(do="c18_waitacks", n=upd, timeout_ms=10000)
         if kills:
             self.emit(do="c18_waitkills", n=kills, timeout_ms=6000)
-        if q == "restart" or self.fresh_life:
+        if self.fresh_life:
             self.emit(do="c18_waitdead", timeout_ms=6000)
             self.emit(do="settle", ms=150)
             self.emit(do="c18_fid")
@@ -342,6 +342,18 @@ class Conv:
                     raise Undrivable("cannot hold this RECONCILE call")
                 arm_rec_at[p[-1]] = j
                 lostans.add(j)
+        # an environment requested while the whole answer to a RECONCILE call is pending: that call is held at the master and
+        # so is the REVIVE call of the deployment (it then waits for its offers inside acquireTasks while the answer is handled)
+        arm_dda_at, dda_new = {}, set()
+        for j, a in enumerate(acts):
+            if a["act"] == "NewEnv" and j > 0 and tset(acts[j - 1]["st"]["rq"]):
+                rs = [k for k in range(j) if acts[k]["act"] == "Reconcile"]
+                p = [k for k in range(rs[-1]) if acts[k]["act"] in ("Crash", "DropConnection")] if rs else []
+                if (not p or p[-1] in arm_kill_at or p[-1] in arm_rec_at
+                        or any(acts[k]["act"] == "ReconcileUpdate" for k in range(rs[-1], j))):
+                    raise Undrivable("cannot hold this RECONCILE call")
+                arm_dda_at[p[-1]] = j
+                dda_new.add(j)
         for i, a in enumerate(acts):
             act, e, st = a["act"], a["arg"], a["st"]
             prev = acts[i - 1]["st"] if i > 0 else None
@@ -355,7 +367,25 @@ class Conv:
             if self.doomed:
                 break
             self.cur_st = st
-            if act == "NewEnv" and self.op:
+            if act == "NewEnv" and i in dda_new:
+                if self.op or self.lookahead(i, e, "ConfigureDone")[0] != "done":
+                    raise Undrivable("the request made while the answer is held does not complete")
+                self.fresh_life = False
+                n = self.ntasks_for(i, e)
+                wf = self.new_wf(n)
+                self.emit(do="c18_waitgate", point="RECONCILE", timeout_ms=25000)
+                self.nasync += 1
+                self.op = {"kind": "create", "env": e, "caller": "A%d" % self.nasync, "done": "ConfigureDone", "gbp": {}, "ntasks": n,
+                           "doomed": False, "revive": True}
+                self.emit(do="create", env=e, wf=wf, caller=self.op["caller"], timeout_ms=60000)
+                self.emit(do="c18_waitgate", point="REVIVE", timeout_ms=25000)   # the deployment waits for its offers
+                self.release("RECONCILE")                                        # ... and now the answer comes
+                expected = sum(1 for t in tset(prev["rq"]) if kill_cond(prev, t, self.dv))
+                self.emit(do="c18_waitacks", n=len(tset(prev["rq"])), timeout_ms=10000)
+                if expected:
+                    self.emit(do="c18_waitkills", n=expected, timeout_ms=6000)
+                self.release("REVIVE")
+            elif act == "NewEnv" and self.op:
                 # requested while a teardown is held at the master / parked at the roster: that one first, then this one, whole
                 self.flush(prev)
                 self.fresh_life = False
@@ -407,6 +437,8 @@ class Conv:
                         self.arm("KILL", arm_kill_at[i][0], arm_kill_at[i][2])
                     if i in arm_rec_at:
                         self.arm("RECONCILE")
+                    if i in arm_dda_at:
+                        raise Undrivable("no hold for the core's own re-subscription")
                     self.client_drop = True
                     continue
                 self.emit(do="snapshot")
@@ -427,10 +459,12 @@ class Conv:
                         self.await_op()
                     if i in arm_kill_at:
                         self.arm("KILL", arm_kill_at[i][0], arm_kill_at[i][2])
-                    if i in arm_rec_at:
+                    if i in arm_rec_at or i in arm_dda_at:
                         self.arm("RECONCILE")
+                    if i in arm_dda_at:
+                        self.arm("REVIVE")
                 else:
-                    if (i in arm_kill_at or i in arm_rec_at) and self.op:
+                    if (i in arm_kill_at or i in arm_rec_at or i in arm_dda_at) and self.op:
                         raise Undrivable("a request is still outstanding")
                     if i in arm_kill_at:
                         self.arm("KILL", arm_kill_at[i][0], arm_kill_at[i][2])
@@ -438,6 +472,9 @@ class Conv:
                         if i in lostans:
                             raise Undrivable("two RECONCILE answers lost in a row")
                         self.arm("RECONCILE")      # before the stream goes: the core is back within milliseconds
+                    if i in arm_dda_at:
+                        self.arm("RECONCILE")
+                        self.arm("REVIVE")
                     self.emit(do="dropstream")
                     if i in lostans:
                         self.release("RECONCILE")   # answered into the void
@@ -499,7 +536,18 @@ class Conv:
                     self.hookgate = False
                     self.emit(do="settle", ms=60)
             elif act in ("ConfigureDone", "StartDone", "KillSend"):
-                if self.op and self.op["env"] == e:
+                if self.op and self.op["env"] == e and self.op.get("revive"):
+                    for g in list(self.held):
+                        self.release(g)
+                    self.await_op()
+                    pending = self.quiesce is not None
+                    self.flush(st)
+                    if not pending and self.restarted:
+                        # (recovery was observed while the deployment went on) the request is over: whatever the master has
+                        # alive must be in the roster by now
+                        self.emit(do="c18_waitorphans", timeout_ms=6000)
+                        self.emit(do="snapshot")
+                elif self.op and self.op["env"] == e:
                     self.flush(prev)
                     for g in list(self.held):
                         self.release(g)
@@ -594,7 +642,13 @@ def fault_points(acts):
                 lostflag = "!refusedkill" if kind and kind[-1] == "KillRefused" else "!lostkill"
                 if any(v in ("configured", "running") for v in prev["env"].values()):
                     lostflag += "@deployed"   # an environment deployed between the lost KILL and the reconnection
-            flags = lostflag + ("+overlap" if overlap else "")
+            held = False   # an environment requested after this fault while the reconciliation answer is still pending
+            for k in range(i + 1, len(acts)):
+                if acts[k]["act"] in ("Crash", "DropConnection"):
+                    break
+                if acts[k]["act"] == "NewEnv" and tset(acts[k - 1]["st"]["rq"]):
+                    held = True
+            flags = lostflag + ("+overlap" if overlap else "") + (">answerheld" if held else "")
             overlap = False
             pts.append({"fault": "crash" if crash else "drop", "class": cls, "transient": ph, "tasks": ("/".join(stg) or "-") + flags,
                         "midreconcile": bool(tset(prev["rcv"]) or tset(prev["rq"]) or tset(prev.get("kq"))), "alive": alive,
